@@ -5,6 +5,7 @@ import (
 	"fmt"
 	"math"
 	"os"
+	"regexp"
 	"runtime"
 	"sort"
 	"strconv"
@@ -48,15 +49,22 @@ type c17Fails struct {
 	mu  sync.Mutex
 	l   []c17Fail
 	n   map[string]int
-	cnt int64
+	cnt  int64 // spec failures
+	ccnt int64 // correspondence failures
 }
 
 // saturated: enough failures were collected; the sweeps stop evaluating (a
 // broken tree fails on most of the 2^32 inputs).
 func (f *c17Fails) saturated() bool { return atomic.LoadInt64(&f.cnt) > 60 }
 
+func (f *c17Fails) corrSaturated() bool { return atomic.LoadInt64(&f.ccnt) > 60 }
+
 func (f *c17Fails) add(spec bool, tag, what string, replay map[string]interface{}) {
-	atomic.AddInt64(&f.cnt, 1)
+	if spec {
+		atomic.AddInt64(&f.cnt, 1)
+	} else {
+		atomic.AddInt64(&f.ccnt, 1)
+	}
 	f.mu.Lock()
 	defer f.mu.Unlock()
 	if f.n == nil {
@@ -208,6 +216,8 @@ func (c *c17Coord) implTuple(s int32) string {
 }
 
 // ---- time ----
+
+var c17FixedRe = regexp.MustCompile(`^-?[0-9]+\.[0-9]{5}$`)
 
 var c17Epoch = time.Date(1989, time.December, 31, 0, 0, 0, 0, time.UTC)
 
@@ -386,7 +396,7 @@ func runC17(args []string) int {
 	}
 
 	// ---- 2. correspondence set of semicircle values ----
-	set := map[int32]struct{}{}
+	var vals []int32
 	bnd := c17Boundaries()
 	for name, b := range bnd {
 		n := 0
@@ -394,7 +404,7 @@ func runC17(args []string) int {
 			if v < math.MinInt32 || v > math.MaxInt32 {
 				continue
 			}
-			set[int32(v)] = struct{}{}
+			vals = append(vals, int32(v))
 			n++
 		}
 		r.Hist["window_"+name] = n
@@ -408,55 +418,122 @@ func runC17(args []string) int {
 	}
 	ns := 0
 	for x := uint64(rg.intn(int(stride))); x < 1<<32; x += stride {
-		set[int32(uint32(x))] = struct{}{}
+		vals = append(vals, int32(uint32(x)))
 		ns++
 	}
 	r.Hist["stride_values"] = ns
 	nrand := 20000 * o.boost
 	for i := 0; i < nrand; i++ {
-		set[int32(uint32(rg.u64()))] = struct{}{}
+		vals = append(vals, int32(uint32(rg.u64())))
 	}
 	r.Hist["random_values"] = nrand
-	vals := make([]int32, 0, len(set))
-	for v := range set {
-		vals = append(vals, v)
-	}
 	sort.Slice(vals, func(i, j int) bool { return vals[i] < vals[j] })
+	{ // dedupe
+		k := 0
+		for i, v := range vals {
+			if i == 0 || v != vals[i-1] {
+				vals[k] = v
+				k++
+			}
+		}
+		vals = vals[:k]
+	}
 
 	const chunk = 64
+	const block = 1 << 20 // values per round trip to the drivers (bounds memory in the thorough tier)
 	var reqs []string
-	for i := 0; i < len(vals); i += chunk {
-		var sb strings.Builder
-		sb.WriteString("ll")
-		for j := i; j < i+chunk && j < len(vals); j++ {
-			sb.WriteByte(' ')
-			sb.WriteString(strconv.Itoa(int(vals[j])))
+	var resp []string
+	var err error
+	for b0 := 0; b0 < len(vals); b0 += block {
+		bv := vals[b0:]
+		if len(bv) > block {
+			bv = bv[:block]
 		}
-		reqs = append(reqs, sb.String())
+		reqs = reqs[:0]
+		for i := 0; i < len(bv); i += chunk {
+			var sb strings.Builder
+			sb.WriteString("ll")
+			for j := i; j < i+chunk && j < len(bv); j++ {
+				sb.WriteByte(' ')
+				sb.WriteString(strconv.Itoa(int(bv[j])))
+			}
+			reqs = append(reqs, sb.String())
+		}
+		resp, err = parBatch(ds, reqs)
+		if err != nil {
+			fmt.Println("driver:", err)
+			return 2
+		}
+		for i := 0; i < len(bv); i += chunk {
+			parts := strings.Split(resp[i/chunk], " ")
+			for j := i; j < i+chunk && j < len(bv); j++ {
+				s := bv[j]
+				model := ""
+				if j-i < len(parts) {
+					model = parts[j-i]
+				}
+				c17CompareLL(s, model, fails)
+				if !thorough {
+					c17Lat.oracle(s, true, fails)
+					c17Lng.oracle(s, true, fails)
+				}
+				// r.count with a cheap injective key: (type, value)
+				r.Evaluations += 2
+				r.distinct[uint64(uint32(s))] = struct{}{}
+				r.distinct[1<<32|uint64(uint32(s))] = struct{}{}
+				r.Traces += 2
+			}
+		}
 	}
-	resp, err := parBatch(ds, reqs)
+	// the spec's reader of the printed form (Spec/FixedPoint.v) against
+	// strconv.ParseFloat, the reader the oracle uses, on a sample of the strings
+	var pstr []string
+	for i := 0; i < len(vals); i += 16 {
+		_, _, _, a := c17Lat.newSemi(vals[i])
+		_, _, _, b := c17Lng.newSemi(vals[i])
+		pstr = append(pstr, a, b)
+	}
+	pstr = append(pstr, "Invalid", "1.5", "12.345678", "-0.00000", ".00000", "1.0000a", "--1.00000", "+1.00000", "1e5")
+	reqs = reqs[:0]
+	for i := 0; i < len(pstr); i += chunk {
+		hi := i + chunk
+		if hi > len(pstr) {
+			hi = len(pstr)
+		}
+		reqs = append(reqs, "pf "+strings.Join(pstr[i:hi], " "))
+	}
+	resp, err = parBatch(ds, reqs)
 	if err != nil {
 		fmt.Println("driver:", err)
 		return 2
 	}
-	for i := 0; i < len(vals); i += chunk {
+	for i, str := range pstr {
 		parts := strings.Split(resp[i/chunk], " ")
-		for j := i; j < i+chunk && j < len(vals); j++ {
-			s := vals[j]
-			model := ""
-			if j-i < len(parts) {
-				model = parts[j-i]
-			}
-			c17CompareLL(s, model, fails)
-			if !thorough {
-				c17Lat.oracle(s, true, fails)
-				c17Lng.oracle(s, true, fails)
-			}
-			r.count("lat"+strconv.Itoa(int(s)), true)
-			r.count("lng"+strconv.Itoa(int(s)), true)
-			r.Traces += 2
+		got := ""
+		if i%chunk < len(parts) {
+			got = parts[i%chunk]
 		}
+		want := "none"
+		if c17FixedRe.MatchString(str) {
+			digits := strings.Replace(strings.TrimPrefix(str, "-"), ".", "", 1)
+			n, _ := strconv.ParseInt(digits, 10, 64)
+			want = fmt.Sprintf("%v,%d", strings.HasPrefix(str, "-"), n)
+			// and that (sign, n) is what ParseFloat reads, to the last bit of the nearest float64
+			f, _ := strconv.ParseFloat(str, 64)
+			v := float64(n) / 100000
+			if strings.HasPrefix(str, "-") {
+				v = -v
+			}
+			if f != v {
+				fails.add(false, "spec_reader", fmt.Sprintf("ParseFloat(%q) = %v, n/10^5 = %v", str, f, v), map[string]interface{}{"entry": "Spec.FixedPoint.parse_fixed5", "kind": "parse", "text": str})
+			}
+		}
+		if got != want {
+			fails.add(false, "spec_reader", fmt.Sprintf("parse_fixed5(%q) = %s, expected %s", str, got, want), map[string]interface{}{"entry": "Spec.FixedPoint.parse_fixed5", "kind": "parse", "text": str})
+		}
+		r.hist("spec_reader_strings")
 	}
+
 	for _, s := range []int32{703539217, -1, 1 << 30} {
 		r.sample(map[string]interface{}{"kind": "semicircles", "s": s, "lat": c17Lat.implTuple(s), "lng": c17Lng.implTuple(s)})
 	}
@@ -656,6 +733,9 @@ func runC17(args []string) int {
 }
 
 func c17CompareLL(s int32, model string, fails *c17Fails) {
+	if fails.corrSaturated() {
+		return
+	}
 	impl := c17Lat.implTuple(s) + ";" + c17Lng.implTuple(s)
 	if impl == model {
 		return
@@ -674,6 +754,9 @@ func c17CompareLL(s int32, model string, fails *c17Fails) {
 }
 
 func c17CompareDeg(x float64, model string, fails *c17Fails) {
+	if fails.corrSaturated() && fails.saturated() {
+		return
+	}
 	las, lainv := c17Lat.newDeg(x)
 	los, loinv := c17Lng.newDeg(x)
 	impl := fmt.Sprintf("%d,%d,%s", las, los, strconv.FormatFloat(x, 'f', 5, 32))
